@@ -3,4 +3,3 @@ package main
 func runLemmas(p *Program, cx *Contracts, cfg *PropConfig) ([]*Obligation, []string) { return nil, nil }
 
 
-func runReplayAdapter(id string, o *Obligation, cfg *PropConfig) (string, bool) { return "", false }
